@@ -272,6 +272,13 @@ def _progress(ctx: Ctx, c: Collector) -> None:
             gt = guard_terms(r.guards)
             if not any(is_call_to(x, "_triggered_time") for x in gt):
                 problems.append(f"early return under {' and '.join(T.show(x) for x in gt) or 'no condition'}")
+        # a trigger that has fired already must not wait for the next set(): the check has a consequence
+        # (early return, or the future is resolved on the spot)
+        resolved = [e for e in s.of_kind("call") if e.term[1][0] == "attr" and e.term[1][2] == "set_result"
+                    and any(is_call_to(x, "_triggered_time") for x in guard_terms(e.guards))]
+        if not [r for r in early if any(is_call_to(x, "_triggered_time") for x in guard_terms(r.guards))] and not resolved:
+            problems.append("the immediate check has no consequence: a trigger that has fired already is registered and only resolved by the next "
+                            "set(), which need not come (the last waiter of a run waits forever)")
         if problems:
             c.bad("O5c", qn, "check-then-register", "; ".join(problems), ctx.loc(fi, chk))
         else:
